@@ -11,9 +11,51 @@
   in ERROR (fairness = enabled internal steps are eventually taken; wall-clock time is not
   modelled).
 -/
+import ControlModel.Gen.FailureFacts
 import ControlModel.Proofs.Failure
 
 open RoleTree EnvM Failure
+
+/-! ## the model is about the code as it is now (go/ast facts regenerated on every run) -/
+
+def Failure.Kind.mesos? : Kind → Option String
+  | .FAILED => some "TASK_FAILED" | .LOST => some "TASK_LOST" | .KILLED => some "TASK_KILLED"
+  | .TERROR => some "TASK_ERROR" | .FINISHED => some "TASK_FINISHED" | _ => none
+
+/-- `effect` for a terminal Mesos status IS the case table of task.Manager.handleMessage
+    (state literal) and updateTaskStatus (INACTIVE); the ERROR rows are the ones guarded by
+    `t.IsLocked()` (an owned task — every task of a live environment). -/
+theorem C03_status_effect_is_code (k : Kind) (n : String) (st : St) (h : k.mesos? = some n) :
+    (∃ row ∈ Gen.C03.statusState, row.1 = n ∧ TState.parse? row.2.1 = (effect k st).st ∧ row.2.2 = k.hard) ∧
+    n ∈ Gen.C03.inactiveOn ∧ (effect k st).su = some .INACTIVE ∧ (effect k st).stop = false := by
+  cases k <;> simp [Kind.mesos?] at h <;> subst h <;> cases st <;> decide
+
+/-- `effect` for a lost executor / agent IS HandleExecutorFailed / HandleAgentFailed. -/
+theorem C03_lost_effect_is_code (st : St) :
+    TState.parse? Gen.C03.execState = (effect .EXEC st).st ∧ TState.parse? Gen.C03.execState = (effect .EXEC0 st).st ∧
+    TState.parse? Gen.C03.agentState = (effect .AGENT st).st ∧ TState.parse? Gen.C03.agentState = (effect .AGENT0 st).st ∧
+    Gen.C03.execInactive = true ∧ Gen.C03.agentInactive = true ∧
+    (effect .EXEC st).su = some .INACTIVE ∧ (effect .EXEC0 st).su = some .INACTIVE ∧
+    (effect .AGENT st).su = some .INACTIVE ∧ (effect .AGENT0 st).su = some .INACTIVE := by
+  cases st <;> decide
+
+/-- `effect` for TASK_INTERNAL_ERROR IS the branch of handleDeviceEvent: guarded by the
+    environment's state being the literal "RUNNING", role told ERROR, STOP_ACTIVITY
+    requested, the task's criticality never consulted. -/
+theorem C03_internal_effect_is_code (st : St) :
+    St.parse? Gen.C03.internalGuard = some .RUNNING ∧
+    (effect .INTERNAL st).st = (if some st = St.parse? Gen.C03.internalGuard ∧ Gen.C03.internalUpdatesRole then some .ERROR else none) ∧
+    (effect .INTERNAL st).stop = (decide (some st = St.parse? Gen.C03.internalGuard) && Gen.C03.internalStops) ∧
+    (effect .INTERNAL st).su = none ∧ Gen.C03.internalLooksAtCritical = false := by
+  cases st <;> decide
+
+/-- `notify`, `updState`'s critical filter and `Watch` ARE the shapes found in
+    parentadapter.go, taskrole.go and subscribeToWfState. -/
+theorem C03_watcher_is_code :
+    Gen.C03.notifyNonBlocking = true ∧ Gen.C03.forwardIffCritical = true ∧ Gen.C03.watcherOnError = true ∧
+    Gen.C03.watcherOneShot = true ∧ Gen.C03.watcherLeavesOnDone = true ∧ Gen.C03.forcedError = true ∧
+    Gen.C03.timerMs = 500 := by
+  decide
 
 /-! ## hypotheses -/
 
@@ -221,49 +263,109 @@ theorem C03_root_error (f : Forest) (p : List Nat) (hc : Consistent f) (hcrit : 
   obtain ⟨a, o, _, h2⟩ := (upd_top f p .ERROR).2 .ERROR h1
   rw [h2, X_error_left]
 
+/-! ## several tasks at once (executor / agent lost) -/
+
+theorem fail_frame (k : Kind) (s : Sys) (vs : List (List Nat × Bool)) :
+    (fail k s vs).env = s.env ∧ (fail k s vs).inflight = s.inflight ∧ (fail k s vs).hooks = s.hooks ∧
+    (fail k s vs).stopReq ≤ s.stopReq + vs.length := by
+  induction vs generalizing s with
+  | nil => exact ⟨rfl, rfl, rfl, Nat.le_refl _⟩
+  | cons v vs ih =>
+    obtain ⟨q, r⟩ := v
+    simp only [fail]
+    obtain ⟨a1, a2, a3, a4⟩ := ih (failOne k s q r)
+    obtain ⟨b1, b2, b3, b4⟩ := failOne_frame k s q r
+    refine ⟨a1.trans b1, a2.trans b2, a3.trans b3, ?_⟩
+    rw [b4] at a4
+    simp only [List.length_cons]
+    split at a4 <;> omega
+
+/-- One failure hitting any number of tasks arms the watcher as soon as ONE of them is
+    critical and its notification finds the watcher at its receive — whatever happens to
+    the notifications of the others (dropped, or sent after the watcher has left its loop). -/
+theorem fail_arms (k : Kind) (s : Sys) (vs : List (List Nat × Bool))
+    (hw : s.w = .parked ∨ s.w = .armed) (hk : k.drives s.env.st = true)
+    (h : s.w = .armed ∨ ∃ p, (p, true) ∈ vs ∧ critLeafAt s.f p = true) :
+    (fail k s vs).w = .armed := by
+  induction vs generalizing s with
+  | nil =>
+    rcases h with h | ⟨p, hp, _⟩
+    · exact h
+    · cases hp
+  | cons v vs ih =>
+    obtain ⟨q, r⟩ := v
+    simp only [fail]
+    have henv : (failOne k s q r).env = s.env := (failOne_frame k s q r).1
+    have hk' : k.drives (failOne k s q r).env.st = true := by rw [henv]; exact hk
+    obtain ⟨w1, w2⟩ := failOne_w k s q r hk
+    rcases hw with hw | hw
+    · -- parked
+      rcases h with h | ⟨p, hp, hc⟩
+      · rw [hw] at h; cases h
+      · rcases List.mem_cons.mp hp with heq | hin
+        · cases heq
+          exact ih _ (Or.inr (failOne_arms s k _ hw hc hk)) hk' (Or.inl (failOne_arms s k _ hw hc hk))
+        · refine ih _ ?_ hk' (Or.inr ⟨p, hin, by rw [failOne_critLeafAt]; exact hc⟩)
+          exact w2 hw
+    · -- armed already
+      have : (failOne k s q r).w = .armed := by rw [w1 (by simp [hw])]; exact hw
+      exact ih _ (Or.inr this) hk' (Or.inl this)
+
 /-! ## C03: critical ⇒ ERROR -/
 
 /-- FULL-STRENGTH statement (kept visible; FALSE of the code, see the `C03_finding_*`
     theorems): whatever the kind of failure and wherever the watcher goroutine is, once a
-    critical task of a live environment has failed and nothing more can happen, the
-    environment is in ERROR. -/
+    critical task of a live environment has failed (alone or with the other tasks of its
+    executor / agent) and nothing more can happen, the environment is in ERROR. -/
 def C03_critical_to_error_full : Prop :=
-  ∀ (s : Sys) (k : Kind) (p : List Nat) (ready : Bool) (ls : List Label),
-    Live s → critLeafAt s.f p = true →
-    validRun (failOne k s p ready) ls = true → quiescent (irun (failOne k s p ready) ls) = true →
-    (irun (failOne k s p ready) ls).env.st = .ERROR
+  ∀ (s : Sys) (k : Kind) (vs : List (List Nat × Bool)) (ls : List Label),
+    Live s → (∃ p r, (p, r) ∈ vs ∧ critLeafAt s.f p = true) →
+    validRun (fail k s vs) ls = true → quiescent (irun (fail k s vs) ls) = true →
+    (irun (fail k s vs) ls).env.st = .ERROR
 
-/-- What IS proved — for every role tree, every live state, every critical victim, every
-    kind of failure that the code turns into task state ERROR at that instant
-    (`Kind.drives`: TASK_FAILED/LOST/KILLED/ERROR, executor lost, agent lost; an announced
-    internal error only while RUNNING), idle or with any transition in flight, every
-    hook set, every order of the enabled internal steps and every outcome of the
-    in-flight / queued transitions — PROVIDED the watcher is at its receive when the root
-    notifies (`ready = true`):
-      (1) at most `budget` (≤ replies outstanding + queued STOPs + 3) internal steps can follow,
+/-- What IS proved — for every role tree, every live state, every set of tasks dying
+    together of which at least one is critical, every kind of failure that the code turns
+    into task state ERROR at that instant (`Kind.drives`: TASK_FAILED/LOST/KILLED/ERROR,
+    executor lost, agent lost; an announced internal error only while RUNNING), idle or with
+    any transition in flight, every hook set, every order of the enabled internal steps and
+    every outcome of the in-flight / queued transitions — PROVIDED the watcher is at its
+    receive when the root notifies for (one of) the critical victim(s) (`(p, true) ∈ vs`):
+      (1) the watcher is armed and at most `budget` (≤ budget before + number of victims)
+          internal steps can follow,
       (2) when none is enabled any more the environment is in ERROR,
-      (3) such a run exists (so (2) is not vacuous), and
-      (4) ERROR is then kept by every further internal istep. -/
-theorem C03_critical_to_error_partial (s : Sys) (k : Kind) (p : List Nat)
-    (hlive : Live s) (hcrit : critLeafAt s.f p = true) (hk : k.drives s.env.st = true) :
-    let s1 := failOne k s p true
-    s1.w = .armed ∧ budget s1 ≤ budget s ∧
+      (3) such a run exists (so (2) is not vacuous).
+    `C03_error_stable` adds that ERROR is then kept. -/
+theorem C03_critical_to_error_partial (s : Sys) (k : Kind) (vs : List (List Nat × Bool))
+    (hlive : Live s) (hk : k.drives s.env.st = true)
+    (hcrit : ∃ p, (p, true) ∈ vs ∧ critLeafAt s.f p = true) :
+    let s1 := fail k s vs
+    s1.w = .armed ∧ budget s1 ≤ budget s + vs.length ∧
     (∀ ls, validRun s1 ls = true → ls.length ≤ budget s1 ∧
       (quiescent (irun s1 ls) = true → (irun s1 ls).env.st = .ERROR)) ∧
     (∃ ls, validRun s1 ls = true ∧ quiescent (irun s1 ls) = true) := by
   obtain ⟨_, hw, hnr⟩ := hlive
-  have harm := failOne_arms s k p hw hcrit hk
-  obtain ⟨fe, fi, _, fs⟩ := failOne_frame k s p true
-  have hinv : ErrInv (failOne k s p true) := ⟨Or.inl harm, fun i hi => by rw [fi] at hi; exact hnr i hi⟩
+  have harm := fail_arms k s vs (Or.inl hw) hk (Or.inr hcrit)
+  obtain ⟨_, fi, _, fs⟩ := fail_frame k s vs
+  have hinv : ErrInv (fail k s vs) := ⟨Or.inl harm, fun i hi => by rw [fi] at hi; exact hnr i hi⟩
   refine ⟨harm, ?_, ?_, exists_maximal_run _ _ (Nat.le_refl _)⟩
   · unfold budget
-    rw [fi, fs, harm, hw]
+    rw [fi, harm, hw]
     simp only [Watch.weight]
-    split <;> split <;> omega
+    split <;> omega
   · intro ls hv
     refine ⟨?_, fun hq => quiescent_inv_error _ (run_inv _ ls hinv hv) hq⟩
     have := run_length _ ls hv
     omega
+
+/-- The single-victim reading. -/
+theorem C03_critical_to_error (s : Sys) (k : Kind) (p : List Nat) (ls : List Label)
+    (hlive : Live s) (hcrit : critLeafAt s.f p = true) (hk : k.drives s.env.st = true)
+    (hv : validRun (failOne k s p true) ls = true) (hq : quiescent (irun (failOne k s p true) ls) = true) :
+    (irun (failOne k s p true) ls).env.st = .ERROR ∧ ls.length ≤ budget s + 1 := by
+  obtain ⟨_, hb, h, _⟩ := C03_critical_to_error_partial s k [(p, true)] hlive hk ⟨p, List.mem_singleton.mpr rfl, hcrit⟩
+  simp only [fail, List.length_singleton] at hb h
+  obtain ⟨h1, h2⟩ := h ls hv
+  exact ⟨h2 hq, by omega⟩
 
 /-- ERROR is absorbing for the internal steps (nothing in flight is RECOVER). -/
 theorem C03_error_stable (s : Sys) (ls : List Label) (he : s.env.st = .ERROR) (hnr : NoRecover s)
@@ -410,7 +512,7 @@ theorem wConfigured_live : Live wConfigured := ⟨Or.inl rfl, rfl, fun i hi => b
     role saying ERROR. -/
 theorem C03_finding_notify_dropped : ¬ C03_critical_to_error_full := by
   intro h
-  have := h wRunning .FAILED [0, 0] false [] wRunning_live (by decide) (by decide) (by decide)
+  have := h wRunning .FAILED [([0, 0], false)] [] wRunning_live ⟨[0, 0], false, by decide, by decide⟩ (by decide) (by decide)
   revert this; decide
 
 /-- What exactly that schedule leaves behind. -/
@@ -423,13 +525,13 @@ theorem C03_notify_dropped_witness :
     not ERROR: the environment stays RUNNING. -/
 theorem C03_finding_finished_not_error : ¬ C03_critical_to_error_full := by
   intro h
-  have := h wRunning .FINISHED [0, 0] true [] wRunning_live (by decide) (by decide) (by decide)
+  have := h wRunning .FINISHED [([0, 0], true)] [] wRunning_live ⟨[0, 0], true, by decide, by decide⟩ (by decide) (by decide)
   revert this; decide
 
 /-- TASK_INTERNAL_ERROR of a critical task while the environment is CONFIGURED is ignored. -/
 theorem C03_finding_internal_error_ignored_unless_running : ¬ C03_critical_to_error_full := by
   intro h
-  have := h wConfigured .INTERNAL [0, 0] true [] wConfigured_live (by decide) (by decide) (by decide)
+  have := h wConfigured .INTERNAL [([0, 0], true)] [] wConfigured_live ⟨[0, 0], true, by decide, by decide⟩ (by decide) (by decide)
   revert this; decide
 
 /-- TASK_INTERNAL_ERROR of a NON-critical task while RUNNING stops the irun
